@@ -100,7 +100,7 @@ func (tr *TrackedResource) AggregateTrackedResource(instType string, resource *R
 		aggregatedResourceTime = NewResource()
 	}
 	for key, element := range resource.Resources {
-		aggregatedResourceTime.Resources[key] += element * Quantity(timeDiff)
+		aggregatedResourceTime.Resources[key] = addVal(aggregatedResourceTime.Resources[key], mulVal(element, Quantity(timeDiff)))
 	}
 	tr.TrackedResourceMap[instType] = aggregatedResourceTime
 }
